@@ -102,7 +102,7 @@ reg('C13',
 reg('C19',
     title='numeric and channel lists decode entry by entry exactly as written',
     src='c19_expr.c',
-    configs={'quick': ['def'], 'thorough': ['def', 'c90']},
+    configs={'quick': ['def', 'noinfo'], 'thorough': ['def', 'noinfo', 'c90']},
     deadline={'quick': 400, 'thorough': 2000},
     level=MC,
     technique='bounded-exhaustive enumeration of all expression bodies up to length L x index x capacity on the real expression API (ASan), compared with a reference list grammar',
